@@ -42,7 +42,11 @@ mod verif_queuing {
 
     /// wrapped sink that must never be entered on a caller's thread
     struct NeverSink;
-    impl MetricSink for NeverSink { fn emit(&self, _m: &str) -> io::Result<usize> { unreachable!("wrapped sink entered on the caller path") } }
+    static CALLER_FLUSHED: AtomicUsize = AtomicUsize::new(0);
+    impl MetricSink for NeverSink {
+        fn emit(&self, _m: &str) -> io::Result<usize> { unreachable!("wrapped sink entered on the caller path") }
+        fn flush(&self) -> io::Result<()> { CALLER_FLUSHED.fetch_add(1, Ordering::SeqCst); Ok(()) }
+    }
 
     fn recording_worker(cap: Option<usize>) -> Arc<Worker> { Arc::new(Worker::new(cap, |v: String| { record(&v); std::mem::forget(v); })) }
     fn handle(worker: &Arc<Worker>) -> QueuingMetricSink {
@@ -137,11 +141,32 @@ mod verif_queuing {
         let r = q.emit("345");
         assert!(matches!(r, Ok(3)), "[C10] emit returns Ok with the metric's byte length whenever the queue has room; an unbounded queue accepts every metric");
         assert!(qlen(&w) == n + 1 && q.submitted() == 1, "[C08,C15] the accepted metric is queued once and counted once");
+        assert!(CALLER_FLUSHED.load(Ordering::SeqCst) == 0, "[C10] emit never runs the wrapped sink (emit or flush) on the caller's thread");
         // the queued entry is exactly the string given, behind everything accepted earlier
         let mut k = 0;
         while k < n { let _ = w.receiver.try_recv(); k += 1; }
         assert!(matches!(w.receiver.try_recv(), Ok(Some(ref s)) if s.len() == 3 && s.as_bytes()[0] == b'3' && s.as_bytes()[2] == b'5'), "[C08] exactly the emitted string is queued, behind everything accepted earlier");
         kani::cover!(true, "end");
+        std::mem::forget(r); std::mem::forget(q); std::mem::forget(w);
+    }
+
+    //@H name=c10_emit_empty props=C08,C10,C15,C20 bound="unbounded queue and capacity 1 (full)" fn=QueuingMetricSink::emit :: a zero-length metric is a metric like any other: accepted => queued and counted, refused when the queue is full
+    #[kani::proof]
+    #[kani::unwind(6)]
+    fn c10_emit_empty() {
+        let full: bool = kani::any();
+        let w = recording_worker(if full { Some(1) } else { None });
+        if full { prefill(&w, 1); }
+        let q = handle(&w);
+        let r = q.emit("");
+        if full {
+            assert!(r.is_err() && qlen(&w) == 1 && q.submitted() == 0, "[C10,C15] an empty metric is refused like any other when the bounded queue holds its capacity; nothing is counted");
+        } else {
+            assert!(matches!(r, Ok(0)), "[C10] emit returns Ok with the metric's byte length (0)");
+            assert!(qlen(&w) == 1 && q.submitted() == 1, "[C08,C15] an emit that returned Ok queued its metric and was counted in submitted, also for a zero-length metric");
+        }
+        kani::cover!(full, "full queue");
+        kani::cover!(!full, "room");
         std::mem::forget(r); std::mem::forget(q); std::mem::forget(w);
     }
 
@@ -157,6 +182,7 @@ mod verif_queuing {
         let r = q.emit("3");
         assert!(r.is_err(), "[C10] once a bounded queue holds its capacity emit returns an error");
         assert!(qlen(&w) == c && q.submitted() == 0 && q.queued() == 0, "[C10,C15] a refused emit changes neither the queue nor the counters");
+        assert!(CALLER_FLUSHED.load(Ordering::SeqCst) == 0, "[C10] a refused emit never runs the wrapped sink (emit or flush) on the caller's thread either: it never waits for it");
         kani::cover!(true, "end");
         std::mem::forget(r); std::mem::forget(q); std::mem::forget(w);
     }
@@ -209,26 +235,27 @@ mod verif_queuing {
         std::mem::forget(w);
     }
 
-    //@H name=c11_dequeue_before_task props=C11,C15,C20 bound="2 queued metrics" fn=Worker::run :: run: a metric is removed from the queue and counted as drained BEFORE the task is invoked (so a panicking metric is consumed, never re-delivered, and everything behind it stays queued)
+    //@H name=c11_dequeue_before_task props=C11,C15,C20 bound="3 queued metrics" fn=Worker::run :: run: a metric is removed from the queue and counted as drained BEFORE the task is invoked (so a panicking metric is consumed, never re-delivered, and everything behind it stays queued)
     #[kani::proof]
     #[kani::unwind(6)]
     fn c11_dequeue_before_task() {
         let w = Arc::new(Worker::new(None, |v: String| {
             let me = unsafe { &*(WPTR.load(Ordering::SeqCst) as *const Worker) };
             let k = DELIVERED.fetch_add(1, Ordering::SeqCst);
-            // at the moment the k-th metric (0-based) is processed: k+1 drained, 1-k still queued
-            if me.stats.drained() == EXPECT_DRAINED.load(Ordering::SeqCst) as u64 + k as u64 + 1 && me.receiver.len() == 1 - k { SEEN_OK.fetch_add(1, Ordering::SeqCst); } else { SEEN_BAD.fetch_add(1, Ordering::SeqCst); }
+            // at the moment the k-th metric (0-based) is processed: k+1 drained, 2-k still queued
+            if me.stats.drained() == EXPECT_DRAINED.load(Ordering::SeqCst) as u64 + k as u64 + 1 && me.receiver.len() == 2 - k { SEEN_OK.fetch_add(1, Ordering::SeqCst); } else { SEEN_BAD.fetch_add(1, Ordering::SeqCst); }
             std::mem::forget(v);
         }));
         WPTR.store(Arc::as_ptr(&w) as usize, Ordering::SeqCst);
         prefill(&w, 2);
+        assert!(w.sender.try_send(Some(String::from("3"))).is_ok());
         let d: u64 = kani::any();
         kani::assume(d < 1000);
         w.stats.drained.store(d, Ordering::SeqCst);
         EXPECT_DRAINED.store(d as usize, Ordering::SeqCst);
         w.run();
-        assert!(DELIVERED.load(Ordering::SeqCst) == 2, "[C08] both metrics processed");
-        assert!(SEEN_OK.load(Ordering::SeqCst) == 2 && SEEN_BAD.load(Ordering::SeqCst) == 0, "[C11] each metric is dequeued and counted before the wrapped sink sees it; the metrics behind it are still queued");
+        assert!(DELIVERED.load(Ordering::SeqCst) == 3, "[C08] all three metrics processed");
+        assert!(SEEN_OK.load(Ordering::SeqCst) == 3 && SEEN_BAD.load(Ordering::SeqCst) == 0, "[C11] each metric is dequeued and counted one at a time before the wrapped sink sees it; the metrics behind it are STILL QUEUED while it is processed (a panic loses only the metric being processed)");
         kani::cover!(true, "end");
         std::mem::forget(w);
     }
@@ -363,6 +390,57 @@ mod verif_queuing {
         std::mem::forget(w);
     }
 
+    // ----------------------------------------------- stop racing with the worker's blocking receive
+    /// what the last handle's drop does, performed by "another thread" at the entry of the worker's recv()
+    fn stop_hook() { let me = unsafe { &*(WPTR.load(Ordering::SeqCst) as *const Worker) }; me.stop(); }
+
+    macro_rules! stop_races_recv {
+        ($name:ident, $cap:expr) => {
+            #[kani::proof]
+            #[kani::unwind(6)]
+            fn $name() {
+                let w = recording_worker($cap);
+                WPTR.store(Arc::as_ptr(&w) as usize, Ordering::SeqCst);
+                // the worker has looked at the stop request (not set) and is about to block in recv();
+                // exactly then the last handle is dropped on another thread
+                unsafe { crossbeam_channel::BEFORE_RECV = Some(stop_hook); }
+                w.run();
+                assert!(w.stop_requested.load(Ordering::SeqCst), "the interfering stop ran");
+                assert!(w.stopped.load(Ordering::SeqCst) && WOULD_BLOCK.load(Ordering::SeqCst) == 0, "[C09] a stop that arrives between the worker's check of the stop request and its blocking receive is not lost: the background thread terminates (it does not park in recv() forever), for every queue capacity");
+                assert!(DELIVERED.load(Ordering::SeqCst) == 0, "[C09] nothing is invented");
+                kani::cover!(true, "end");
+                std::mem::forget(w);
+            }
+        };
+    }
+    //@H name=c09_stop_races_recv_cap0 props=C09,C20 bound="capacity 0 (rendezvous queue), empty; one interfering stop() at the entry of recv()" fn=Worker::run + Worker::stop :: rendezvous queue: the stop marker cannot be handed over unless the worker is already waiting, so a stop arriving just before the worker blocks must be noticed some other way
+    stop_races_recv!(c09_stop_races_recv_cap0, Some(0));
+    //@H name=c09_stop_races_recv_cap1 props=C09,C20 bound="capacity 1, empty; one interfering stop() at the entry of recv()" fn=Worker::run + Worker::stop :: bounded queue with room: the marker queued by the racing stop is received and ends the loop
+    stop_races_recv!(c09_stop_races_recv_cap1, Some(1));
+    //@H name=c09_stop_races_recv_unbounded props=C09,C20 tier=thorough bound="unbounded, empty; one interfering stop() at the entry of recv()" fn=Worker::run + Worker::stop :: unbounded queue: same
+    stop_races_recv!(c09_stop_races_recv_unbounded, None);
+
+    //@H name=c09_cap0_parked_then_stop props=C08,C09,C20 bound="capacity 0; history: worker parks, emit (handed over), last drop, worker resumes" fn=QueuingMetricSink::emit,drop + Worker::run :: rendezvous queue, worker already waiting: an emit is handed to it directly; the stop requested afterwards ends the thread once that metric has been delivered
+    #[kani::proof]
+    #[kani::unwind(6)]
+    fn c09_cap0_parked_then_stop() {
+        let w = recording_worker(Some(0));
+        let q = handle(&w);
+        w.run();                                    // the background thread starts and parks in recv()
+        assert!(WOULD_BLOCK.load(Ordering::SeqCst) == 1 && DELIVERED.load(Ordering::SeqCst) == 0, "parked");
+        WOULD_BLOCK.store(0, Ordering::SeqCst);
+        let r = q.emit("1");
+        assert!(r.is_ok(), "a waiting worker takes the metric");
+        drop(q);                                    // last handle: the worker is busy, no marker can be handed over
+        assert!(DELIVERED.load(Ordering::SeqCst) == 0, "[C09,C10] dropping a handle never runs the wrapped sink on the dropping thread");
+        w.stopped.store(false, Ordering::SeqCst);
+        w.run();                                    // the background thread continues with the metric it was handed
+        assert!(DELIVERED.load(Ordering::SeqCst) == 1 && ORDER.load(Ordering::SeqCst) == 1, "[C08,C09] the metric accepted before the last drop is still handed to the wrapped sink");
+        assert!(w.stopped.load(Ordering::SeqCst) && WOULD_BLOCK.load(Ordering::SeqCst) == 0, "[C09] then the background thread terminates");
+        kani::cover!(true, "end");
+        std::mem::forget(r); std::mem::forget(w);
+    }
+
     // ------------------------------------------------------------------- through the real build()
     /// wrapped sink without a destructor (cheaper for CBMC than LogSink)
     struct PlainSink;
@@ -435,6 +513,53 @@ mod verif_queuing {
         assert!(q.worker.sender.inner.cap.is_none(), "[C10] without a configured capacity the queue is unbounded");
         kani::cover!(true, "end");
         std::mem::forget(q);
+    }
+
+    static HANDLED_OLD: AtomicUsize = AtomicUsize::new(0);
+    //@H name=c16_last_handler_wins props=C16,C20 fn=QueuingMetricSinkBuilder::with_error_handler (twice),build :: the handler configured on the sink is the one given LAST: it is invoked once per failure, a handler it replaced never
+    #[kani::proof]
+    #[kani::unwind(2)]
+    fn c16_last_handler_wins() {
+        WRAPPED_OUTCOME.store(2, Ordering::SeqCst);
+        let q = QueuingMetricSinkBuilder::new()
+            .with_error_handler(|e: io::Error| { HANDLED_OLD.fetch_add(1, Ordering::SeqCst); std::mem::forget(e); })
+            .with_error_handler(|e: io::Error| handler(e))
+            .build(PlainSink);
+        (q.worker.task)(String::from("1"));
+        assert!(HANDLED.load(Ordering::SeqCst) == 1 && HANDLED_KIND.load(Ordering::SeqCst) == 1, "[C16] the error handler configured on the queuing sink (the one set last) is invoked exactly once with the wrapped sink's error");
+        assert!(HANDLED_OLD.load(Ordering::SeqCst) == 0, "[C16] a handler that was replaced before build is never invoked");
+        kani::cover!(true, "end");
+        std::mem::forget(q);
+    }
+
+    //@H name=c09_build_task_owns_sink props=C08,C09,C20 fn=QueuingMetricSinkBuilder::build :: ownership built by build(): the worker's task holds its OWN strong reference to the wrapped sink, so the sink outlives the handles until the queue is drained and the thread has ended
+    #[kani::proof]
+    #[kani::unwind(2)]
+    fn c09_build_task_owns_sink() {
+        let q = QueuingMetricSink::from(PlainSink);
+        assert!(Arc::strong_count(&q.sink) >= 2, "[C08,C09] besides the handle, the worker's task keeps the wrapped sink alive: metrics still queued when the last handle is dropped can be handed to it");
+        kani::cover!(true, "end");
+        std::mem::forget(q);
+    }
+
+    //@H name=c09_build_drop_drains props=C08,C09,C20 tier=thorough bound="history through the real build(): emit, drop the only handle, worker resumes" fn=QueuingMetricSinkBuilder::build + Drop :: ownership built by build(): the wrapped sink stays alive while accepted metrics are queued, also after the last handle is gone; they are delivered, then the thread ends and the wrapped sink is dropped
+    #[kani::proof]
+    #[kani::unwind(3)]
+    fn c09_build_drop_drains() {
+        WRAPPED_OUTCOME.store(0, Ordering::SeqCst);
+        let q = QueuingMetricSink::from(LogSink);   // the thread starts and parks
+        let w = q.worker.clone();
+        let r = q.emit("1");
+        assert!(r.is_ok(), "accepted");
+        drop(q);                                    // last handle
+        assert!(WRAPPED_DROPPED.load(Ordering::SeqCst) == 0 && DELIVERED.load(Ordering::SeqCst) == 0, "[C09] the wrapped sink is not released while metrics accepted before the last drop are still queued (and the drop does not deliver them itself)");
+        w.stopped.store(false, Ordering::SeqCst);
+        w.run();                                    // the background thread continues
+        assert!(DELIVERED.load(Ordering::SeqCst) == 1, "[C08,C09] every metric accepted before the last drop is still handed to the wrapped sink");
+        assert!(w.stopped.load(Ordering::SeqCst) && WOULD_BLOCK.load(Ordering::SeqCst) == 1, "[C09] then the thread ends (it parked once, before the emit)");
+        // (that the wrapped sink is dropped once the thread has released the worker: c09_build_releases_wrapped)
+        kani::cover!(true, "end");
+        std::mem::forget(r); std::mem::forget(w);
     }
 
     //@H name=c16_no_handler props=C08,C15,C16,C20 fn=QueuingMetricSinkBuilder::build (task closure) :: without a handler the wrapped sink's error is discarded and the task returns normally
